@@ -8,6 +8,7 @@ import (
 	"github.com/trustbloc/sidetree-core-go/pkg/api/txn"
 	"github.com/trustbloc/sidetree-core-go/pkg/observer"
 	"github.com/trustbloc/sidetree-core-go/pkg/processor"
+	"github.com/trustbloc/sidetree-core-go/pkg/versions/1_0/txnprovider"
 
 	"verifharness/hx"
 	"verifharness/ref"
@@ -40,6 +41,16 @@ func c03ThroughObserver(c *hx.Ctx) {
 		v0 := hx.NewVersion(p0, hx.VersionOpts{CAS: cas, Store: store})
 		v1 := hx.NewVersion(p1, hx.VersionOpts{CAS: cas, Store: store})
 		pc := hx.NewClient(v0, v1)
+		// every second node holds no batch file itself: the transactions name two other nodes, the first one unreachable
+		var altSources []string
+		if i%2 == 1 {
+			altSources = []string{"unreachable-node", "remote"}
+			format := []txnprovider.Opt{txnprovider.WithSourceCASURIFormatter(func(uri, source string) (string, error) { return source + "|" + uri, nil })}
+			r0 := hx.NewVersion(p0, hx.VersionOpts{CAS: &remoteOnlyCAS{remote: cas}, Store: store, ProviderOpts: format})
+			r1 := hx.NewVersion(p1, hx.VersionOpts{CAS: &remoteOnlyCAS{remote: cas}, Store: store, ProviderOpts: format})
+			pc = hx.NewClient(r0, r1)
+			c.Count("observer_nodes_reading_from_alternate_sources")
+		}
 		d, cr, err := NewCDid(r.Split("did"), ref.SHA256, []string{hx.Pick(r, ref.KeyTypes), "P-256"}, int64(p0.MaxOperationTimeDelta), false,
 			[]interface{}{patchAddServices(svcEntry("s0", "web", "https://example.com/s0"))}, nil, nil, "")
 		if err != nil {
@@ -87,7 +98,7 @@ func c03ThroughObserver(c *hx.Ctx) {
 				return
 			}
 			txns = append(txns, txn.SidetreeTxn{Namespace: hx.Namespace, AnchorString: info.AnchorString, TransactionTime: t, TransactionNumber: uint64(k % 3),
-				ProtocolVersion: s.ver, CanonicalReference: fmt.Sprintf("ref%d", k)})
+				ProtocolVersion: s.ver, CanonicalReference: fmt.Sprintf("ref%d", k), AlternateSources: altSources})
 			H = append(H, Place(s.b.Desc, t, uint64(k%3), fmt.Sprintf("ref%d", k), s.ver))
 		}
 		// notifications: everything at once / one per transaction / cut at a PRNG-chosen point
